@@ -31,7 +31,7 @@ pub static PROP: PropDef = PropDef {
         "MAX_FIELD_SECTION_SIZE is not readable through the public API: its application is observed through the size limit applied to a probe message",
     ],
     tape_len: 120,
-    random_cases: |t| t.pick(60_000, 2_000_000),
+    random_cases: |t| t.pick(240_000, 20_000_000),
     run_tape,
     exhaustive: Some(exhaustive),
     run_direct: Some(run_direct),
